@@ -407,6 +407,10 @@ func (h *handler) disconnect(err error) {
 }
 
 func (h *handler) handleDisconnect(err error) {
+	// A peer that has stopped reading keeps the sender blocked in a write,
+	// and closing the connection waits for that write: make pending and
+	// future writes fail first, so that a connection is always torn down.
+	h.Conn.SetWriteDeadline(time.Now())
 	h.Conn.Close()
 	h.Handler.HandleDisconnect(err)
 }
